@@ -24,7 +24,7 @@ BUDGET = {
     "quick": {"worlds": 120, "runs": 30, "wall_cap": 300, "world_wall": 90},
     "thorough": {"worlds": 2400, "runs": 40, "wall_cap": 2400, "world_wall": 120},
 }
-REQUIRED_PROBES = ["mixin_call_with_caller_metadata", "operations_mixin", "iam_mixin", "locations_mixin", "api_not_listed", "rule_subset", "iam_yields_to_own_rpc",
+REQUIRED_PROBES = ["mixin_call_with_caller_metadata", "mixin_fault_surfaced", "operations_mixin", "iam_mixin", "locations_mixin", "api_not_listed", "rule_subset", "iam_yields_to_own_rpc",
                    "own_iam_rpc_unruled_keeps_mixins", "add_iam_methods", "grpc_call", "async_call", "rest_call",
                    "rest_additional_binding", "exposure_checked", "nothing_exposed", "own_rpc_with_mixin_name", "second_service_client"]
 
@@ -112,6 +112,12 @@ def gen_scenarios(spec, rng, n):
                 if m.get("own_mixin_name") and s["name"] == svc:
                     ops.insert(rng.randint(1, len(ops)), {"id": "own-" + m["name"], "kind": "unary", "service": s["name"], "method": m["name"],
                                                           "form": "dict", "request": {"name": "own/x1"}, "call": {}, "server": [{"reply": {}}]})
+        if client != "rest":
+            for op in ops:
+                if op["kind"] == "mixin" and rng.random() < 0.15:
+                    # the server answers this mixin call with an error status: it must reach the caller as the api-core
+                    # exception of that status on the sync AND the asyncio client (the property: "alike")
+                    op["fault"] = rng.choice(["UNAVAILABLE", "NOT_FOUND", "PERMISSION_DENIED", "ABORTED", "INTERNAL"])
         if rng.random() < 0.4:
             shared = rng.random() < 0.7
             for op in ops:
@@ -241,6 +247,8 @@ def server_factory(run):
             return plain(call)
         if op is None or op["kind"] != "mixin":
             return {"code": "UNIMPLEMENTED"}
+        if op.get("fault") and call["n"] == 1:
+            return {"code": op["fault"]}                      # (faults stop after the first attempt)
         return {"msg": _dyn(op["resp_full"], op["reply"])}
     return serve
 
@@ -351,6 +359,13 @@ def judge(spec, scenario, history):
             return [{"rule": rule, "op": oid, "method": op["method"], "msg": msg}], probes
         outcome = next((e for e in evs if e["k"] in ("return", "raise")), None)
         attempts = [e for e in evs if e["k"] == "attempt"]
+        if op.get("fault"):
+            _bump(probes, "mixin_fault_surfaced")
+            want_cls = engine.CODE_TO_EXC[op["fault"]].__name__
+            if outcome is None or outcome["k"] != "raise" or outcome.get("cls") != want_cls:
+                return V("mixin_error_surface", f"the server answered {op['method']} ({scenario['client']}) with {op['fault']}; expected "
+                         f"{want_cls}, got {outcome and outcome['k']} {outcome and outcome.get('cls')}: {outcome and str(outcome.get('msg'))[:120]}")
+            continue
         if outcome is None or outcome["k"] == "raise":
             return V("mixin_call_failed", f"{op['method']} ({scenario['client']}) raised {outcome and outcome.get('cls')}: {outcome and outcome.get('msg')}")
         if len(attempts) != 1:
